@@ -98,6 +98,9 @@ def expr(v):
         return f"Unorderable({v[1]})"
     if t == "np":
         return f"NP({v[1]!r})"
+    if t == "subc":
+        # instance of a subclass of a builtin container (v[2]: Tags(set) / FTags(frozenset)) built from the plain container v[1]
+        return f"{v[2]}({expr(v[1])})"
     raise ValueError(v)
 
 
@@ -133,7 +136,7 @@ def walk(v):
             if t == "dd":
                 yield from walk(k)
             yield from walk(x)
-    elif t in ("ext", "nbox"):
+    elif t in ("ext", "nbox", "subc"):
         yield from walk(v[1])
 
 
